@@ -27,13 +27,14 @@ impl XsdDateTime {
     fn new(s: &str) -> Option<Self> {
         static RE: LazyLock<Regex> = LazyLock::new(|| {
             Regex::new(r"(?x)
-            ^ (-)?(\d{4,}) - (\d{2} - \d{2} T \d{2} : \d{2} : \d{2}) (?:\.(\d+))? ( Z | [-+]\d{2}:\d{2} )? $
+            ^ (-)?([0-9]{4,}) - ([0-9]{2} - [0-9]{2} T [0-9]{2} : [0-9]{2} : [0-9]{2}) (?:\.([0-9]+))? ( Z | [-+][0-9]{2}:[0-9]{2} )? $
         ").unwrap()
         });
 
         let c = RE.captures(s)?;
         let sign: i32 = c.get(1).map(|_| -1).unwrap_or(1);
-        let year: i32 = c.get(2).unwrap().as_str().parse().unwrap();
+        // the year may not fit an i32: such a lexical form is simply not a supported dateTime
+        let year: i32 = c.get(2).unwrap().as_str().parse().ok()?;
         let mdhms = c.get(3).unwrap().as_str();
         let month: u32 = mdhms[..2].parse().unwrap();
         let day: u32 = mdhms[3..5].parse().unwrap();
